@@ -27,7 +27,7 @@ ASSUMPTIONS = [
 ]
 REQUIRED = {"all": ["type:WF", "type:LC", "type:LZW", "user_alphabets", "user_alphabet_switch_same_object",
                     "step_gt_1_partial_tail", "locality_windows", "wf_entropy_windows", "rejected_unknown_type",
-                    "rejected_long_window", "homopolymer_windows", "step_ge_N", "numpy_int_arguments"]}
+                    "rejected_long_window", "homopolymer_windows", "step_ge_N", "numpy_int_arguments", "windows_ge_255"]}
 SIZES = [2, 3, 4, 5, 6, 8, 10, 11, 12, 15, 18, 20]
 NSEQ = {"quick": 1000, "thorough": 8000}
 HI = {"quick": 40, "thorough": 150}
@@ -35,6 +35,8 @@ HI = {"quick": 40, "thorough": 150}
 
 def cases(tier, seed):
     rng = gen.sub_rng(seed, ID)
+    for n, letters in ((900, "QQQQQN"), (700, "GS"), (600, "KKKKE")):
+        yield {"s": "".join(rng.choice(letters) for _ in range(n)), "o": rng.randrange(1 << 30), "long": True}
     for i in range(NSEQ[tier]):
         cls = "lowcomplexity" if i % 5 == 0 else None
         yield {"s": gen.rand_seq(rng, cls, lo=1, hi=HI[tier] if i % 3 else 25), "o": rng.randrange(1 << 30)}
@@ -63,13 +65,22 @@ def call(obj, t, size, ua, w, s, ws, rng):
             kw["alphabetSize"] = rng.choice(SIZES)
     else:
         kw["alphabetSize"] = size
+        if rng.random() < 0.12:
+            # documented: the size may be a number or a string that converts to an integer
+            kw["alphabetSize"] = rng.choice([str(size), float(size), " %d" % size])
+            _forms[0] += 1
     return obj.get_linear_complexity(**kw)
+
+
+_forms = [0]
 
 
 def judge(case, rep, S):
     np = S["np"]
     SP = S["SP"]
     seq = case["s"]
+    if rep.counters.get("size_spelled_as_string_or_float", 0) < _forms[0]:
+        rep.cnt("size_spelled_as_string_or_float", _forms[0] - rep.counters.get("size_spelled_as_string_or_float", 0))
     N = len(seq)
     rng = gen.sub_rng(case["o"], ID)
     obj = SP(seq)
@@ -80,6 +91,9 @@ def judge(case, rep, S):
         ua = user_alphabet(rng) if rng.random() < 0.35 else None
         size = rng.choice(SIZES)
         w = rng.randint(1, N) if rng.random() < 0.8 else rng.choice([1, N, min(N, 10), max(1, N - 1)])
+        if case.get("long"):
+            w = rng.choice([255, 256, 257, 300, 400, 512, 640, N])
+            rep.cnt("windows_ge_255")
         s = rng.randint(1, N) if rng.random() < 0.5 else rng.choice([1, 1, 2, 3])
         ws = 3 if rng.random() < 0.5 else rng.randint(1, 6)
         if rng.random() < 0.08:
